@@ -64,7 +64,7 @@ Proof.
   eexists. split.
   - exists 69679, (mkmod 65536 131072 65536 0 (MPe ex_pe)), 4143, ex_pe.
     split; [reflexivity|]. split; [vm_compute; reflexivity|]. split; [reflexivity|].
-    split; [vm_compute; reflexivity|]. split; [|vm_compute; reflexivity].
+    split; [vm_compute; reflexivity|]. split; [|split; [vm_compute; reflexivity | split; [intros [H _]; vm_compute in H; discriminate | intros _; vm_compute; reflexivity]]].
     intros f u0 Hlk Hui. vm_compute in Hlk. inversion Hlk; subst f. vm_compute in Hui. inversion Hui; subst u0.
     split; [|split; [intros insns H; vm_compute in H; discriminate | reflexivity]].
     eexists. split; [vm_compute; reflexivity|]. split; [repeat constructor|]. split; [repeat constructor|].
